@@ -4,7 +4,8 @@ set -e
 P="$(realpath "$1")"; ID="$2"; TIER="${3:-quick}"
 WT="/var/tmp/seedwt-$$"
 git -C /repo worktree add -q "$WT" HEAD
-trap 'git -C /repo worktree remove --force "$WT" >/dev/null 2>&1 || true' EXIT
+COQPRIV="/var/tmp/gv-coq-$(printf %s "$WT" | sha1sum | cut -c1-10)"
+trap 'git -C /repo worktree remove --force "$WT" >/dev/null 2>&1 || true; rm -rf "$COQPRIV" "$COQPRIV.lock"' EXIT
 git -C "$WT" apply "$P"
 EVBAK=$(mktemp -d /var/tmp/evbak.XXXX); cp /verif/evidence/*.json "$EVBAK"/ 2>/dev/null
 cd /verif && GV_REPO="$WT" ./check "$ID" --tier "$TIER" 2>&1 | tail -${TAIL:-12}
